@@ -1910,3 +1910,91 @@ func runBinderType(p *Program, r *RuleResult) {
 	}
 	r.count("binder insertions", n)
 }
+
+// ctxInsertHelper: fn inserts, into a context parameter, an entry keyed by the identifier of
+// one of its name parameters. Returns the indices of the context and the name parameter and
+// the insertion.
+func (p *Program) ctxInsertHelper(fn *ssa.Function) (ctxIdx, nameIdx int, mu *ssa.MapUpdate, ok bool) {
+	if fn == nil || fn.Blocks == nil || !p.isFirstParty(fn) {
+		return 0, 0, nil, false
+	}
+	for _, b := range fn.Blocks {
+		for _, in := range b.Instrs {
+			m, isMU := in.(*ssa.MapUpdate)
+			if !isMU || !isCtxType(m.Map.Type()) {
+				continue
+			}
+			ci, ni := -1, -1
+			for i, prm := range fn.Params {
+				if m.Map == ssa.Value(prm) {
+					ci = i
+				}
+				if isNameType(prm.Type()) && accessPath(m.Key) == prm.Name()+".Ident" {
+					ni = i
+				}
+			}
+			if ci >= 0 && ni >= 0 {
+				return ci, ni, m, true
+			}
+		}
+	}
+	return 0, 0, nil, false
+}
+
+// R-BIND-HELPER (C05, C07): a helper that binds a name in a typing context always binds it.
+func init() {
+	register(&Rule{Name: "R-BIND-HELPER", Min: 0,
+		Doc: "every first-party helper of package process that inserts a name parameter into a context parameter does so before every return: a bind helper with a way round the insertion (`if name.IsSelf { return }`) silently discards the channel the rule was about to record, so a received linear channel need never be used. The expected count may be zero (today the rules insert directly); a fixture keeps the positive example",
+		Run: runBindHelper})
+}
+
+func runBindHelper(p *Program, r *RuleResult) {
+	n := 0
+	for _, fn := range p.SrcFuncs {
+		if fn.Pkg == nil || fn.Pkg.Pkg.Path() != processPkg || fn.Parent() != nil {
+			continue
+		}
+		// typing rules themselves are judged by R-FRESH-BINDER; helpers are the functions
+		// that are not typecheckForm methods
+		if fn.Name() == "typecheckForm" {
+			continue
+		}
+		_, ni, mu, ok := p.ctxInsertHelper(fn)
+		if !ok {
+			continue
+		}
+		// only helpers that bind one name handed to them (not the context constructors that
+		// loop over a list)
+		view := p.View(fn)
+		inLoop := false
+		for _, l := range view.Loops() {
+			if l.Body[mu.Block()] {
+				inLoop = true
+			}
+		}
+		if inLoop {
+			continue
+		}
+		n++
+		bad := ""
+		for _, b := range view.Blocks() {
+			ins := view.Instrs(b)
+			ret, isRet := ins[len(ins)-1].(*ssa.Return)
+			if !isRet {
+				continue
+			}
+			if !view.passedBefore(ret, func(in ssa.Instruction) bool { return in == ssa.Instruction(mu) }) {
+				bad = p.instrPos(ret)
+			}
+		}
+		if bad != "" {
+			r.add(fnName(fn), "always-binds:"+fn.Params[ni].Name(), Violated, p.instrPos(mu), "the helper can return (at "+bad+") without inserting the name into the context: the rule that calls it goes on as if the channel were recorded, and a channel that is never recorded need never be used")
+		} else {
+			r.add(fnName(fn), "always-binds:"+fn.Params[ni].Name(), Holds, p.instrPos(mu), "")
+		}
+	}
+	if n == 0 {
+		r.add("process", "bind-helpers", Holds, "", "no helper inserts a single name into a context: the typing rules insert directly (R-FRESH-BINDER)")
+	}
+	r.count("bind helpers", n)
+}
